@@ -238,6 +238,7 @@ def run(chk: Check):
     chk.assumptions = ["collection identity is Python object identity: x[:] / x[...] / asarray(x) return x itself and therefore track it (DESIGN F9)"]
     chk.run_proofs()
     model_family(chk, da)
+    fam_setitem_plan(chk, da)
     key_mutation_family(chk, da)
     n = 4000 if chk.tier == "thorough" else 400
     for hid in range(n):
@@ -512,4 +513,298 @@ def model_family(chk, da):
         ddescs.append({"size": size, "key": str(k), "value": vl if vl is not None else v})
     for i in coq_eval_cases(M_HEADER, D_CASE, D_CHK, dcases)[0]:
         chk.tie_break("setitem_den-model", {"case": ddescs[i], "literal": dcases[i]})
+    chk.traces_validated += len(dcases)
+
+
+# ==========================================================================
+# Model correspondence (coq/theories/SetitemPlan.v): the PER-BLOCK PLAN of x[index] = value read back from the real
+# SetItem layer (Alias = block passed through; Task(setitem, block, value[value_indices], block_indices)), and the
+# output of parse_and_validate_assignment, compared exactly with `parse` / `plan_obs` inside Coq; the computed result is
+# compared with NumPy.
+P_HEADER = "From DA Require Import PyBase Slicing SetitemPlan.\nOpen Scope Z_scope.\n"
+P_CASE = "list (list Z) * list sidx * list Z * option parsed * option (option (list bres))"
+P_CHK = ("Definition chk (c : " + P_CASE + ") : bool := let '(chunks, idx, vshape, rp, rl) := c in "
+         "oparsed_eqb (parse idx (map zsum chunks) vshape) rp && obs_eqb (plan_obs chunks idx vshape) rl && "
+         "match rp with Some pr => forallb wf_pidx1_b (p_idx pr) | None => true end.")
+# the FULL denotation statement of Properties/C11.v (not proved for touched blocks), decided inside Coq at every position
+D2_CASE = "list (list Z) * list sidx * list Z"
+D2_CHK = "Definition chk (c : " + D2_CASE + ") : bool := let '(chunks, idx, vshape) := c in den_ok_b chunks idx vshape."
+
+
+def _cslice3(s):
+    return f"(mkslice {copt(s.start)} {copt(s.stop)} {copt(s.step)})"
+
+
+def c_sidx(e):
+    if isinstance(e, slice):
+        return f"SSlice {_cslice3(e)}"
+    if isinstance(e, (list, np.ndarray)):
+        return f"SList {clist([int(v) for v in e])}"
+    return f"SInt {cz(int(e))}"
+
+
+def c_pidx1(e):
+    if isinstance(e, slice):
+        return f"PSl {cz(e.start)} {cz(e.stop)} {cz(e.step)}"
+    if isinstance(e, np.ndarray):
+        return f"PLst {clist([int(v) for v in e])}"
+    return f"PInt {cz(int(e))}"
+
+
+def c_parsed(out):
+    indices, reverse, offset, value_offset, vcommon, base, nb = out
+    return ("(Some (Build_parsed " + clist(indices, c_pidx1) + " " + clist(reverse) + " " + cz(offset) + " " + cz(value_offset) + " "
+            + clist(vcommon) + " " + clist(base, lambda b: cbool(b is not None)) + " " + clist(nb) + "))")
+
+
+def aligned_key(key):
+    """no integer index stands before a list index or a negative-step slice (where setitem_array_expr went wrong before ce7c1de;
+    kept in the violation signatures so that a regression is classified)"""
+    seen_int = False
+    for e in key:
+        if isinstance(e, slice):
+            if seen_int and (e.step or 1) < 0:
+                return False
+        elif isinstance(e, list):
+            if seen_int:
+                return False
+        else:
+            seen_int = True
+    return True
+
+
+def np_transposes(key):
+    """NumPy moves the advanced dimensions first when an integer and a list are separated by a slice: outside outer indexing"""
+    adv = [i for i, e in enumerate(key) if not isinstance(e, slice)]
+    return any(isinstance(e, list) for e in key) and len(adv) > 1 and adv[-1] - adv[0] + 1 != len(adv)
+
+
+def read_plan(expr, numblocks):
+    """SetItem._layer() -> one entry per output key (C order): None = Alias of the input block, else (block_indices, value_indices)"""
+    import itertools
+    from dask._task_spec import Alias, Task
+    from dask_array._collection import Array
+    from dask_array.slicing._utils import setitem as kernel
+    calls, depth = [], [0]
+    orig = Array.__getitem__
+
+    def recording(self, idx):
+        depth[0] += 1
+        try:
+            r = orig(self, idx)
+        finally:
+            depth[0] -= 1
+        if depth[0] == 0:
+            calls.append(idx)
+        return r
+    Array.__getitem__ = recording
+    try:
+        layer = expr._layer()
+    finally:
+        Array.__getitem__ = orig
+    out, k = [], 0
+    for bi in itertools.product(*[range(n) for n in numblocks]):
+        t = layer[(expr._name, *bi)]
+        if isinstance(t, Alias):
+            if t.target != (expr.array._name, *bi):
+                raise AssertionError("alias to a different block")
+            out.append(None)
+            continue
+        assert isinstance(t, Task) and t.func is kernel and t.args[0].key == (expr.array._name, *bi)
+        vi = calls[k]
+        k += 1
+        out.append((list(t.args[2].args), list(vi)))
+    assert k == len(calls)
+    return out
+
+
+def c_bres(b):
+    if b is None:
+        return "BUntouched"
+    bi, vi = b
+    ell = bool(vi) and vi[0] is Ellipsis
+    if ell:
+        vi = vi[1:]
+    return f"BTouched {clist(bi, c_sidx)} {clist(vi, c_sidx)} {cbool(ell)}"
+
+
+def gen_plan_case(rng, it):
+    rank = rng.choice([1, 1, 1, 2, 2, 3])
+    shape = tuple(rng.choice([1, 2, 3, 4, 5, 6, 7, 9]) for _ in range(rank))
+    chunks = tuple(progs.rand_chunks_for(rng, n) for n in shape)
+    nent = rank if rng.random() < 0.8 else rng.randint(0, rank + (1 if rng.random() < 0.2 else 0))
+    key, nlists = [], 0
+    for ax in range(nent):
+        n = shape[min(ax, rank - 1)]
+        r = rng.random()
+        if r < 0.55:
+            bound = n + 2
+            key.append(slice(rng.choice([None, rng.randint(-bound, bound)]), rng.choice([None, rng.randint(-bound, bound)]),
+                             rng.choice([None, 1, 1, 2, 3, -1, -2, -3] + ([0] if rng.random() < 0.03 else []))))
+        elif r < 0.75:
+            key.append(rng.randint(-n, n - 1) if rng.random() < 0.95 else rng.choice([n, -n - 1]))
+        elif nlists == 0 or rng.random() < 0.05:
+            nlists += 1
+            m = rng.randint(1, n + 1)
+            l = [rng.randint(-n, n - 1) for _ in range(m)]
+            style = rng.choice(["sorted", "unsorted", "repeated", "unique"])
+            if style == "sorted":
+                l = sorted(v % n for v in l)
+            elif style == "unique":
+                l = list(dict.fromkeys(v % n for v in l))
+            elif style == "repeated":
+                l = l + [l[0]]
+            if rng.random() < 0.03:
+                l[rng.randrange(len(l))] = rng.choice([n, -n - 1])
+            key.append(l)
+        else:
+            key.append(slice(None))
+    # the shape outer indexing implies (NumPy's, unless it transposes)
+    implied = []
+    for ax, n in enumerate(shape):
+        e = key[ax] if ax < len(key) else slice(None)
+        if isinstance(e, slice):
+            implied.append(len(range(*e.indices(n))) if e.step != 0 else 1)
+        elif isinstance(e, list):
+            implied.append(len(e))
+    vk = rng.choice(["scalar", "one", "full", "full", "full", "trailing", "ones-mixed", "lead-ones", "wrong"])
+    if vk == "scalar":
+        vshape = ()
+    elif vk == "one":
+        vshape = (1,)
+    elif vk == "full":
+        vshape = tuple(implied)
+    elif vk == "trailing":
+        vshape = tuple(implied[rng.randint(0, len(implied)):])
+    elif vk == "ones-mixed":
+        vshape = tuple(1 if rng.random() < 0.5 else m for m in implied)
+    elif vk == "lead-ones":
+        vshape = (1,) * rng.randint(1, 2) + tuple(implied)
+    else:
+        vshape = tuple(m + rng.choice([0, 1, -1]) if m > 0 else m + rng.choice([0, 1]) for m in implied) or (2,)
+    return shape, chunks, tuple(key), vshape, vk
+
+
+PLAN_CORPUS = [
+    # (shape, chunks, key, value shape): minimal reproducers of the findings first
+    ((4, 4), ((2, 2), (2, 2)), (2, [0, 1]), (2,)),                      # C11-S1 (fixed ce7c1de): integer before a list raised TypeError while building the graph
+    ((4, 4), ((2, 2), (2, 2)), (1, slice(None, None, -1)), (4,)),       # C11-S1 (fixed ce7c1de): integer before a reversed slice raised IndexError
+    ((2, 3, 3), ((2,), (3,), (3,)), (1, slice(None, None, -1), slice(None)), (3, 3)),   # C11-S3 (fixed ce7c1de): the WRONG value axis was reversed
+    ((2, 4), ((1, 1), (4,)), ([0, 1], 0), (1, 2)),                      # C11-S4 (fixed ed2da03): Ellipsis not inserted: IndexError
+    ((2, 4), ((1, 1), (4,)), (slice(0, 2), 0), (1, 2)),                 # C11-S4b (fixed ed2da03): ... or a shape mismatch at compute
+    ((1, 2, 2), ((1,), (1, 1), (2,)), (0, slice(None), [0, 1]), (2, 2)),   # C11-S5: integer and list separated by a slice, two blocks
+    ((2,), ((2,),), (slice(0, 1, -1),), (0,)),                          # C11-A
+    ((4, 6), ((2, 2), (3, 3)), (slice(None, None, -1), [5, 0, 2]), (4, 3)),
+    ((6,), ((2, 4),), ([2, 2, 5, 2],), (4,)),
+]
+
+
+def fam_setitem_plan(chk, da):
+    from dask_array.slicing._setitem import parse_and_validate_assignment
+    rng = random.Random(f"{chk.pid}-setitem-plan-{chk.seed}")
+    n = 12000 if chk.tier == "thorough" else 900
+    cases, descs, dcases, ddescs = [], [], [], []
+    for it in range(n):
+        if it < len(PLAN_CORPUS):
+            shape, chunks, key, vshape = PLAN_CORPUS[it]
+            vk = "corpus"
+        else:
+            shape, chunks, key, vshape, vk = gen_plan_case(rng, it)
+        desc = {"shape": shape, "chunks": chunks, "key": repr(key), "value_shape": vshape}
+        al = aligned_key(key)
+        # the Ellipsis rule of setitem_array_expr (`value_ndim > len(indices)`) misses a value with MORE dimensions than the
+        # indexing result but not more than the array (integer indices present)
+        n_implied = sum(1 for ax in range(len(shape)) if ax >= len(key) or not isinstance(key[ax], int))
+        ell_gap = n_implied < len(vshape) <= len(shape)
+        a = (np.arange(int(np.prod(shape)), dtype="int64").reshape(shape) * 7) % 23 - 9
+        size = int(np.prod(vshape))
+        val = np.arange(100, 100 + size, dtype="int64").reshape(vshape)
+        chk.count("plan:value:" + vk)
+        for e in key:
+            chk.count("plan:entry:" + ("list" if isinstance(e, list) else "int" if not isinstance(e, slice) else
+                                       "slice-neg" if (e.step or 1) < 0 else "slice-pos"))
+        # NumPy
+        want = a.copy()
+        try:
+            want[key] = val
+        except Exception as e:  # noqa: BLE001
+            want = None
+        if np_transposes(key):
+            want = "transposed"
+        # the real parse
+        try:
+            rp = c_parsed(parse_and_validate_assignment(key, shape, vshape))
+        except (NotImplementedError, ValueError, IndexError) as e:
+            rp = "None"
+            chk.count("plan:parse-raises:" + type(e).__name__)
+        # the real assignment and its layer
+        x = da.from_array(a.copy(), chunks=chunks)
+        rl, layer_err = "None", None
+        try:
+            with warnings.catch_warnings():
+                warnings.simplefilter("ignore")
+                x[key] = val
+            assigned = True
+        except (NotImplementedError, ValueError, IndexError):
+            assigned = False
+        if assigned != (rp != "None"):
+            chk.tie_break("setitem-plan:__setitem__ and parse_and_validate_assignment disagree on acceptance", desc)
+            continue
+        if assigned:
+            if type(x.expr).__name__ != "SetItem":
+                chk.tie_break("setitem-plan:the assignment did not build a SetItem expression", desc)
+                continue
+            try:
+                with warnings.catch_warnings():
+                    warnings.simplefilter("ignore")
+                    real = read_plan(x.expr, x.numblocks)
+                rl = "(Some (Some " + clist(real, c_bres) + "))"
+                chk.count("plan:blocks-touched", sum(b is not None for b in real))
+                chk.count("plan:blocks-untouched", sum(b is None for b in real))
+            except (TypeError, IndexError, AttributeError, ValueError) as e:
+                rl, layer_err = "(Some None)", e
+        chk.case(("setitem-plan", shape, chunks, repr(key), vshape), nontrivial=assigned, sample=desc if it in (7, 8) else None)
+        cases.append(ctuple(clist(chunks, clist), clist(key, c_sidx), clist(vshape), rp, rl))
+        descs.append(desc)
+        # property side: the computed value against NumPy
+        if not assigned:
+            if isinstance(want, np.ndarray):
+                chk.count("plan:dask-refuses-what-numpy-accepts")
+            continue
+        if layer_err is not None:
+            chk.count("plan:layer-raises:" + type(layer_err).__name__)
+            chk.violation(f"x[index] = value is accepted but building its graph raises {type(layer_err).__name__}: {str(layer_err)[:80]}", desc,
+                          signature={"class": "setitem-plan-crash", "aligned": al, "ell_gap": ell_gap, "np_transposes": np_transposes(key),
+                                     "error": type(layer_err).__name__})
+            continue
+        try:
+            with warnings.catch_warnings():
+                warnings.simplefilter("ignore")
+                got = x.compute(scheduler="sync")
+        except Exception as e:  # noqa: BLE001
+            chk.count("plan:compute-raises:" + type(e).__name__ + ("" if isinstance(want, np.ndarray) else ":numpy-refuses-too"))
+            if want is None:
+                continue        # NumPy refuses this assignment as well (e.g. a size-1 ARRAY into an integer-indexed element): no oracle
+            chk.violation(f"x[index] = value is accepted but computing it raises {type(e).__name__}: {str(e)[:80]}", desc,
+                          signature={"class": "setitem-plan-crash", "aligned": al, "ell_gap": ell_gap, "np_transposes": np_transposes(key),
+                                     "error": type(e).__name__})
+            continue
+        if isinstance(want, str):
+            chk.count("plan:numpy-transposes-advanced-dims(value not compared)")
+        elif want is None:
+            chk.count("plan:dask-accepts-what-numpy-refuses")
+        elif not np.array_equal(got, want):
+            chk.violation("x[index] = value computes something else than NumPy", {**desc, "got": got.tolist(), "want": want.tolist()},
+                          signature={"class": "setitem-plan-value", "aligned": al, "ell_gap": ell_gap})
+        else:
+            chk.traces_validated += 1
+            if len(key) <= len(shape):      # (since the repairs ce7c1de / ed2da03: no `aligned` / Ellipsis side condition)
+                dcases.append(ctuple(clist(chunks, clist), clist(key, c_sidx), clist(vshape)))
+                ddescs.append(desc)
+    for i in coq_eval_cases(P_HEADER, P_CASE, P_CHK, cases, chunk=150)[0]:
+        chk.tie_break("setitem-plan-model", {"case": descs[i], "literal": cases[i][:1500]})
+    chk.traces_validated += len(cases)
+    chk.count("plan:denotation-statement-decided-in-coq", len(dcases))
+    for i in coq_eval_cases(P_HEADER, D2_CASE, D2_CHK, dcases, chunk=150)[0]:
+        chk.tie_break("setitem-plan-denotation(np_setitem vs plan_setitem)", {"case": ddescs[i], "literal": dcases[i][:1500]})
     chk.traces_validated += len(dcases)
